@@ -36,7 +36,7 @@ def main():
     patch, pids = args[0], args[1:] or sorted(props.PROPS)
     fp = facts_for(patch)
     facts = mirlib.Facts(fp)
-    seen = set()
+    seen = {}
     for pid in pids:
         ctx = core.Ctx(pid, facts, 'quick', 0, fp)
         ctx.skip_rules = set(props.PROPS[pid].get('skip_rules', ()))
@@ -46,9 +46,13 @@ def main():
             ctx.guarded(rule.__name__, rule.__module__, lambda: rule(ctx))
         for o in ctx.obs:
             k = o.key.split('|', 1)[1]
-            if not o.ok and k not in seen:
-                seen.add(k)
-                print(f'FAILED {o.key}\n   at {o.site}\n   {o.detail}')
+            if not o.ok:
+                if k not in seen:
+                    seen[k] = (o, [])
+                if pid not in seen[k][1]:
+                    seen[k][1].append(pid)
+    for k, (o, ps) in seen.items():
+        print(f'FAILED {k}  under {",".join(ps)}\n   at {o.site}\n   {o.detail[:600]}')
     print(f'{len(seen)} distinct failing obligations')
 
 
